@@ -346,7 +346,7 @@ def main(argv):
         for fp in sorted(known):
             if fp not in known_hits:
                 log("note: known finding %s was not encountered by this run" % fp)
-        rdir = os.path.join(VERIF, "replays", prop)
+        rdir = os.path.join(os.environ.get("VERIF_REPLAY_DIR", os.path.join(VERIF, "replays")), prop)
         for fp, v in sorted(new_fps.items()):
             os.makedirs(rdir, exist_ok=True)
             h = hashlib.sha1((fp + "|" + v.get("key", "")).encode()).hexdigest()[:12]
@@ -398,7 +398,10 @@ def main(argv):
             log("evidence does not validate: %r" % (e,))
             if rc == 0:
                 rc = 2
-        with open(os.path.join(VERIF, "evidence", prop + ".json"), "w") as f:
+        evpath = os.path.join(VERIF, "evidence", prop + ".json")
+        if os.environ.get("VERIF_NO_EVIDENCE"):
+            evpath = os.path.join(scratch, prop + ".evidence.json")
+        with open(evpath, "w") as f:
             json.dump(ev, f, indent=1, sort_keys=True)
             f.write("\n")
         log("%s %s: evaluations=%d distinct=%d nontrivial=%d outcomes=%d counters=%s exhaustive=%s wall=%.1fs rc=%d" % (
